@@ -214,6 +214,17 @@ def run_parsers(spec, acc, api):
             continue
         if w is not None:
             acc.violation('near-miss-accepted', f'numberParseInt({t!r}, {radix}) = {w!r}', {'text': t, 'radix': radix})
+    # without a radix the text is a DECIMAL numeral: leading zeros are digits, a radix prefix is not part of it
+    for t, want in [('007', 7), ('010', 10), ('-08', -8), ('+0012', 12), ('00', 0), ('0b101', None), ('0o17', None), ('0x1F', None), ('0B1', None), ('0X10', None), ('1e3', None)]:
+        for args in ([t], [t, 10], [t, 10.0]):
+            acc.case(('decimal-default', t, len(args)), True)
+            try:
+                w = pi(list(args), None)
+            except Exception as exc:  # pylint: disable=broad-except
+                acc.violation('parse-int-raised', f'{t!r}: {exc!r}', {'text': t})
+                continue
+            if w != want or (w is not None and (not isinstance(w, int) or isinstance(w, bool))):
+                acc.violation('parse-int-default-radix', f'numberParseInt({", ".join(map(repr, args))}) = {w!r}, expected {want!r}', {'text': t, 'args': len(args)})
     # numberParseInt never takes the integral part of a non-integer spelling (fractions, exponents): null, in every radix <= 10
     for t in ['1.5e+0', '1.2345e+2', '1e+2', '2.5e+1', '1.0e+0', '1e2', '1E2', '12.0', '12.', '.5', '+-1', '0.0', '1.5', '9.99e+1', '5e-1']:
         for radix in (None, 10, 8):
